@@ -162,7 +162,10 @@ class M6:
                 v = "unspec"
             return op, v
         if k == "slm":
-            return dict(op="slm", qubits=[a % 3], dmm=b % self.ndmm), "unspec"
+            # after measurement it would add a DMM channel with a detuning pulse next to an
+            # existing global pulse (Ising mode): a timeline-changing call
+            v = "refuse" if (self.measured and not self.param and self.mode == "ising") else "unspec"
+            return dict(op="slm", qubits=[a % 3], dmm=b % self.ndmm), v
         if k == "magfield":
             return dict(op="magfield", b=[1.0, 0.0, 30.0]), "unspec"
         if k == "declare_var":
